@@ -173,8 +173,10 @@ class Registry:
             else:
                 dom += leaf_sorts(sh)
         fns = [z3.Function(f"ghost_{name}_{i}", *(dom + [rs])) for i, rs in enumerate(leaf_sorts(ret))]
-        body_node = ast.parse(f"lambda {', '.join(params)}: ({body})", mode="eval").body
-        body_fn = VFunc(body_node, None, None, name + "!def")
+        body_fn = None
+        if body is not None:
+            body_node = ast.parse(f"lambda {', '.join(params)}: ({body})", mode="eval").body
+            body_fn = VFunc(body_node, None, None, name + "!def")
 
         def impl(interp, a, k, n):
             from .lib import coerce
@@ -196,17 +198,29 @@ class Registry:
             res = unflatten(ret, list(outs))
             bound = getattr(interp, "bound_names", None) or set()
             ground = not bound or not any(_mentions(l, bound) for l in leaves)
-            if ground:
+            if ground and body_fn is not None and not getattr(interp, "_in_defn", 0):
                 seen = interp.ctx.__dict__.setdefault("_defn_seen", set())
                 key = (name, tuple(l.get_id() for l in leaves))
                 if key not in seen:
                     seen.add(key)
                     sp = interp if interp.spec else interp.sub(True)
-                    val = sp.call(body_fn, vals, {}, n)
+                    # definitions are unfolded ONE level: applications inside the body stay opaque
+                    sp._in_defn = getattr(sp, "_in_defn", 0) + 1
+                    try:
+                        val = sp.call(body_fn, vals, {}, n)
+                    finally:
+                        sp._in_defn -= 1
                     interp.ctx.assume(veq(res, val), f"ghost-def:{name}")
             return res
         self.spec_names[name] = VBuiltin("defn:" + name, impl)
         self.spec_src[name] = (sig, body)
+
+    def lemma_spec(self, prop, name, vars, assumes=(), hints=(), goals=()):
+        """a lemma over spec / ghost functions only (no code): fresh symbolic `vars`, `assumes`
+        assumed, `hints` evaluated (ground instantiation of definitions), each goal an obligation"""
+        self.lemma_specs = getattr(self, "lemma_specs", [])
+        self.lemma_specs.append({"prop": prop, "name": name, "vars": dict(vars), "assumes": list(assumes),
+                                 "hints": list(hints), "goals": list(goals)})
 
     def table(self, prop, name):
         def deco(fn):
